@@ -43,3 +43,21 @@ package neo3
 //@   ensures[c24-tracked-script] err == nil ==> hashEq
 //@   -- ... and the multi-signature witness built from the message's own scripts verifies the unsigned message
 //@   ensures[c24-witness] err == nil ==> neoWitnessOK(gmsg, ginv, gver)
+
+//@ func getConsensusValByChainId
+//@   property C24, C19
+//@   mode abstract
+//@   requires native != nil
+//@   modifies nothing
+//@   ensures err == nil ==> r0 != nil
+//@   ensures err != nil ==> r0 == nil
+//@   -- storage invariant (assumed): a stored record was written by putConsensusValByChainId and decodes (C04 round trip)
+//@   assumes Store[peerKey(chainID)] != None ==> err == nil
+
+//@ func putConsensusValByChainId
+//@   property C19
+//@   mode abstract
+//@   requires native != nil && neoConsensus != nil
+//@   modifies Store
+//@   ensures err == nil
+//@   ensures Store == upd(old(Store), peerKey(old(neoConsensus.ChainID)), Store[peerKey(old(neoConsensus.ChainID))]) && Store[peerKey(old(neoConsensus.ChainID))] != None
